@@ -444,8 +444,9 @@ def _main(prop, args, seed, t0):
         # no theorem was (re)checked in this run: do not present proof-level counts
         cov = ev["coverage"]
         cov["proof_status"] = {"obligations": cov.pop("obligations"), "discharged": cov.pop("discharged")}
-    (ROOT / "evidence").mkdir(exist_ok=True)
-    (ROOT / "evidence" / f"{prop}.json").write_text(json.dumps(ev, indent=1, default=str))
+    evdir = Path(os.environ.get("VERIF_EVIDENCE_DIR", str(ROOT / "evidence")))  # seeded-change experiments redirect this
+    evdir.mkdir(parents=True, exist_ok=True)
+    (evdir / f"{prop}.json").write_text(json.dumps(ev, indent=1, default=str))
     for ln in out_lines:
         print(ln)
     print(f"[{prop}] tier={tier} seed={seed} theorems={discharged}/{obligations} cases={evaluations} "
